@@ -47,6 +47,36 @@ def programs(rng, n, props=("C06",)):
     return progs
 
 
+ABORTS = {"lines": 0}
+
+
+def run_lines_isolating(binary, lines, timeout=1200):
+    """common.run_lines, but a harness process that DIES (stack overflow, abort: not a caught panic) does not take the
+    whole run down: the lines are bisected until the killing line stands alone, which answers `(panic abort ..)` -
+    a failing input like any other panic."""
+    try:
+        return common.run_lines(binary, [], lines, shards=common.NPROC, timeout=timeout)
+    except common.BuildError:
+        pass
+
+    def go(chunk):
+        rc, out, err = common.sh([binary], inp="\n".join(chunk) + "\n", timeout=timeout)
+        outs = common._lines(out)
+        if rc == 0 and len(outs) == len(chunk):
+            return outs
+        if len(chunk) == 1:
+            ABORTS["lines"] += 1
+            return ["(panic abort rc=%d %s)" % (rc, " ".join(err.split())[-160:].replace("(", "[").replace(")", "]"))]
+        mid = len(chunk) // 2
+        return go(chunk[:mid]) + go(chunk[mid:])
+    import concurrent.futures
+    size = max(1, (len(lines) + common.NPROC - 1) // common.NPROC)
+    chunks = [lines[i:i + size] for i in range(0, len(lines), size)]
+    with concurrent.futures.ThreadPoolExecutor(max_workers=common.NPROC) as ex:
+        parts = list(ex.map(go, chunks))
+    return [o for part in parts for o in part]
+
+
 def lift_all(H, progs, budgets):
     """Runs the implementation on every (program, budget). Returns dict
     (i, kv, kd) -> parsed result."""
@@ -55,7 +85,7 @@ def lift_all(H, progs, budgets):
         for kv, kd in budgets:
             lines.append("%s %s %s %s" % (curve, kv, kd, src.encode().hex()))
             keys.append((i, kv, kd))
-    outs = common.run_lines(H, [], lines, shards=common.NPROC, timeout=1200)
+    outs = run_lines_isolating(H, lines, timeout=1200)
     return {k: o for k, o in zip(keys, outs)}
 
 
@@ -246,6 +276,7 @@ def indeterminates(pre, sigs, params):
 
 
 AUDIT = {"arrivals": 0, "decided": 0, "bad": []}
+VALSTATS = {}
 DEGSTATS = {}        # what the finite-difference oracle saw (lines, signal-dependent trip counts, what it judged / discarded)
 
 
@@ -256,7 +287,7 @@ def oracle_case(ctx, orng, x, src, curve, kv, kd, check_vals, check_degs):
     p = proggen.PRIMES[curve]
     vals, names, sigs, params = valuations(orng, x[1], p, 6 if ctx.tier == "quick" else 12)
     if check_vals:
-        bad, ex = irsem.check_values(x[1], x[2], p, vals)
+        bad, ex = irsem.check_values(x[1], x[2], p, vals, stats=VALSTATS)
         exercised_v += ex
         for (vi, pos, nvis, val, cv) in bad[:1]:
             failing.append({"input": src, "curve": curve, "budget": [kv, kd], "classes": sorted(irsem.node_class(x[2], pos)), "valuation": {"%s:%s" % (a, sexp.unhex(b)): c for (a, b), c in vals[vi].items()},
@@ -354,13 +385,23 @@ def run(ctx, proofs, budgets, check_vals=True, check_degs=True, n_quick=500, n_t
     unjustified = [{"input": progs[i][1], "curve": progs[i][0], "budget": [kv, kd], "validator": "Justify.vjust_cfg", "answer": o}
                    for (i, kv, kd), o in valid.items() if o != "(justified)"]
     dvalid = {}
+    weak = {}
     if check_degs:
         dvalid = dvalidate_all(M, progs, impl, budgets)
         unjustified += [{"input": progs[i][1], "curve": progs[i][0], "budget": [kv, kd], "validator": "DegJustify.djust_cfg", "answer": o}
                         for (i, kv, kd), o in dvalid.items() if o != "(justified)"]
+        # the weaker verified validator DegJustifyLe.djust_cfg_le (a claimed upper end may exceed the one the tables give:
+        # C07_weaker_validator_degrees_true) on the graphs the strict one rejects: tells a sound weakening from a claim
+        # that no theorem covers
+        rej = [k for k, o in dvalid.items() if o != "(justified)"]
+        if rej:
+            wl = ["djustle %s %s" % (sexp.show(sexp.parse(impl[k])[2]), sexp.show(sexp.parse(impl[k])[3])) for k in rej]
+            for k, o in zip(rej, common.run_lines(M, [], wl, shards=common.NPROC, timeout=1200)):
+                weak[k] = o
     ccmodel = constcond_all(M, progs, impl, budgets) if check_vals else {}
     dgraph = deggraph_all(M, progs, impl, budgets) if check_degs else {}
-    dgraph_bad = [{"input": progs[i][1], "curve": progs[i][0], "answer": o} for i, o in dgraph.items() if o != "(deg-graph-ok)"]
+    dgraph_bad = [{"input": progs[i][1], "curve": progs[i][0], "answer": o} for i, o in dgraph.items() if not o.startswith("(deg-graph-ok")]
+    loop_free = sum(1 for o in dgraph.values() if o == "(deg-graph-ok loop-free)")
     # the hypotheses of the budget theorems (C20_mirror_validated_at_every_budget, C20_propagate_completes), evaluated on
     # the graph the implementation hands to propagation (budget 0/0: nothing has run yet)
     hyp = {"checked": 0, "clean": 0}
@@ -393,6 +434,7 @@ def run(ctx, proofs, budgets, check_vals=True, check_degs=True, n_quick=500, n_t
     evaluations = 0
     orng = random.Random(ctx.seed * 7919 + 13)
     DEGSTATS.clear()
+    VALSTATS.clear()
     features = {}
     featured = set()
     for (i, kv, kd), o in impl.items():
@@ -452,7 +494,9 @@ def run(ctx, proofs, budgets, check_vals=True, check_degs=True, n_quick=500, n_t
         # at every pass budget 0..40 on the cases that disagree plus loop shapes whose claims need many passes
         escalated = escalate(ctx, H, orng, disagreements, unjustified, check_vals, check_degs)
         failing += escalated["failing"]
-    return {"dgraph": {"evaluated": len(dgraph), "unmet": len(dgraph_bad)}, "dgraph_bad": dgraph_bad, "features": features, "degstats": dict(DEGSTATS), "check_degs": check_degs, "hyp": hyp, "hyp_bad": hyp_bad, "escalated": None if escalated is None else {k: v for k, v in escalated.items() if k != "failing"}, "cc_seen": cc_seen, "cc_missing": cc_missing, "disagreements": disagreements, "failing": failing, "unjustified": unjustified, "validated": len(valid),
+    return {"weak": {"rejected_by_djust_cfg": len(weak), "of_these_accepted_by_djust_cfg_le": sum(1 for o in weak.values() if o == "(justified)")},
+            "valstats": dict(VALSTATS), "dgraph": {"evaluated": len(dgraph), "unmet": len(dgraph_bad), "graphs_covered_by_loop_free_theorem": loop_free,
+                                                   "graphs_with_loops_covered_by_same_path_theorem_and_oracle_only": len(dgraph) - len(dgraph_bad) - loop_free}, "dgraph_bad": dgraph_bad, "features": features, "degstats": dict(DEGSTATS), "check_degs": check_degs, "hyp": hyp, "hyp_bad": hyp_bad, "escalated": None if escalated is None else {k: v for k, v in escalated.items() if k != "failing"}, "cc_seen": cc_seen, "cc_missing": cc_missing, "disagreements": disagreements, "failing": failing, "unjustified": unjustified, "validated": len(valid),
             "dvalidated": sum(1 for o in dvalid.values() if o == "(justified)"), "darrays": sum(1 for k, o in dvalid.items() if o == "(justified)" and any(t in impl[k] for t in ("(access ", "(update ", "(array "))), "status": status, "claims": claims,
             "nontrivial": len(nontrivial), "evaluations": evaluations, "programs": len(progs),
             "exercised_value_claims": exercised_v, "exercised_degree_claims": exercised_d,
@@ -501,10 +545,20 @@ def verdict(ctx, proofs, r, kinds, known_classes, extra_cov=None):
                     % (r["evaluations"], esc.get("programs", 0), esc.get("budgets", 0)))
         if r["unjustified"]:
             u = r["unjustified"][0]
-            ctx.violation("VALIDATOR REJECTS: the verified validator %s rejects the implementation's annotated graph (%d cases; %d cases also differ from the mirror); %s. "
-                          "Note: DegJustify.djust_cfg demands the claimed range to EQUAL the range the tables give (deg_claim_is), so a sound but more "
-                          "conservative claim is rejected too" % (u.get("validator"), len(r["unjustified"]), len(r["disagreements"]), searched),
-                          {"broken": "validation of the implementation's output by " + str(u.get("validator")), "status": "validator-rejects, no wrong claim found", "first": u}, no_input=True)
+            w = r.get("weak", {})
+            only_deg = all(x.get("validator") == "DegJustify.djust_cfg" for x in r["unjustified"])
+            if only_deg and w.get("rejected_by_djust_cfg") and w["rejected_by_djust_cfg"] == w.get("of_these_accepted_by_djust_cfg_le"):
+                ctx.violation("STRICT VALIDATOR REJECTS, WEAKER VALIDATOR ACCEPTS (a sound weakening), NO WRONG CLAIM FOUND: DegJustify.djust_cfg, which demands every claimed "
+                              "range to EQUAL the range the tables give, rejects %d graphs; DegJustifyLe.djust_cfg_le (a claimed upper end may exceed the table's; sound by "
+                              "C07_weaker_validator_degrees_true) accepts every one of them, so every claim is still covered by a soundness theorem; %d cases differ from the "
+                              "mirror; %s" % (len(r["unjustified"]), len(r["disagreements"]), searched),
+                              {"broken": "equality of the implementation's degree claims with the tables (DegJustify.djust_cfg); the claims are weaker but validated",
+                               "status": "strict validator rejects, weaker validator accepts, no wrong claim found", "first": u}, no_input=True)
+            else:
+                ctx.violation("VALIDATOR REJECTS: the verified validator %s rejects the implementation's annotated graph (%d cases; %d cases also differ from the mirror; of the %s "
+                              "graphs rejected by DegJustify.djust_cfg the weaker DegJustifyLe.djust_cfg_le accepts %s); %s"
+                              % (u.get("validator"), len(r["unjustified"]), len(r["disagreements"]), w.get("rejected_by_djust_cfg", 0), w.get("of_these_accepted_by_djust_cfg_le", 0), searched),
+                              {"broken": "validation of the implementation's output by " + str(u.get("validator")), "status": "validator-rejects, no wrong claim found", "first": u}, no_input=True)
         elif r["disagreements"]:
             d = r["disagreements"][0]
             ctx.violation("MIRROR DIFFERS, VALIDATORS STILL ACCEPT, NO WRONG CLAIM FOUND: Model.Propagate differs from Cfg::propagate_values/propagate_degrees on %d cases "
@@ -518,7 +572,7 @@ def verdict(ctx, proofs, r, kinds, known_classes, extra_cov=None):
             d = r["dgraph_bad"][0]
             ctx.violation("a graph / immediate-dominator table produced by the implementation does not meet the hypotheses of the table-free degree theorems: %s (%d cases; "
                           "`(graph-inconsistent)`: b_index is not the position or b_preds is not the inverse of b_succs or a block is unreachable - a matter of C12; "
-                          "`(idom-not-the-dominator-table)`: the table differs from the one Model.Dom computes - a matter of C15)" % (d["answer"], len(r["dgraph_bad"])),
+                          "`(idom-not-the-dominator-table)`: the table differs from the one Model.Dom computes - a matter of C15; `(local-assigned-twice)`: C14)" % (d["answer"], len(r["dgraph_bad"])),
                           {"broken": "hypotheses DegGraph.graph_consistent / DegGraph.idom_is_dominator_table of C07_decides_is_dominance_control_dependence and "
                                      "C07_validated_graph_degrees_true_table_free", "first": d}, no_input=True)
         elif r.get("cc_missing") and "finding" in kinds:
@@ -559,14 +613,17 @@ def verdict(ctx, proofs, r, kinds, known_classes, extra_cov=None):
         "graphs_validated_by_vjust_cfg": r["validated"],
         "graphs_rejected_by_a_validator": len(r["unjustified"]),
         "graphs_validated_by_djust_cfg": r["dvalidated"],
+        "graphs_rejected_by_djust_cfg_and_the_weaker_djust_cfg_le": r.get("weak"),
         "graphs_with_array_forms_among_them": r["darrays"],
         "disagreements_model_vs_impl": len(r["disagreements"]),
         "input_origins": r["origins"],
         "features_produced": {f: feats.get(f, 0) for f in FEATURES},
+        "harness_processes_that_died_on_a_line": ABORTS["lines"],
+        "interpreter_runs_for_value_claims": r.get("valstats", {}),
     }
     if r.get("check_degs"):
-        cov["degree_oracle"] = dict(ds, rule="a line = five valuations base + t*direction; a claim `degree <= d` on a node is judged per iteration context (sequence of "
-                                    "loop headers entered so far, visit number) on the runs that reach it there, by divided differences of order d + 1; on lines whose trip "
+        cov["degree_oracle"] = dict(ds, rule="a line = five valuations base + t*direction; a claim `degree <= d` on a node is judged per iteration context (the loops the run is in "
+                                    "with their iteration numbers; behind a loop all runs are compared again) on the runs that reach it there, by divided differences of order d + 1; on lines whose trip "
                                     "counts depend on the valuation a context reached by fewer than d + 2 runs is counted under discarded_signal_dependent_paths, not judged; "
                                     "a port of a component is an indeterminate of its own (an unknown signal)")
     if r.get("hyp", {}).get("checked"):
@@ -574,8 +631,10 @@ def verdict(ctx, proofs, r, kinds, known_classes, extra_cov=None):
         cov["graphs_meeting_the_hypotheses_of_the_budget_theorems"] = r["hyp"]
         cov["graphs_meeting_clean_cfg_ldefs_unique_deg_wf"] = r["hyp"]
     if r.get("check_degs"):
-        cov["dominator_table_hypotheses"] = dict(r.get("dgraph", {}), rule="DegGraph.deg_graph_ok = graph_consistent && idom_is_dominator_table, on the real SSA graph and "
-                                                                           "the real immediate-dominator table of every lifted definition")
+        cov["dominator_table_hypotheses"] = dict(r.get("dgraph", {}), rule="DegGraph.graph_consistent, idom_is_dominator_table, single_assignment_b on the real SSA graph and "
+                                                                           "the real immediate-dominator table of every lifted definition (unmet = violation); forward_b (loop-free) "
+                                                                           "decides whether C07_loop_free_graph_claims_true (diverging runs proved represented) applies; its further "
+                                                                           "hypothesis `edge lists of the lifted skeleton` is compared by the liftfull engine (C13), not here")
     if r.get("escalated"):
         cov["escalated_search_after_broken_correspondence"] = r["escalated"]
     if "degree" in kinds:
